@@ -4,6 +4,8 @@ import (
 	"bytes"
 	"encoding/json"
 	"fmt"
+	"github.com/dave/dst/decorator/resolver/goast"
+	"github.com/dave/dst/decorator/resolver/guess"
 	"go/parser"
 	"go/token"
 	"reflect"
@@ -438,8 +440,61 @@ func c19RenderAfterRaw(decs []string) string {
 	return ""
 }
 
+// c19RenderQualified: the list on the End point of a qualified identifier that import management has
+// collapsed into one path-carrying identifier (first and last element of a literal with one element per
+// line) is laid out exactly as on a plain identifier of the same length in the same place.
+func c19RenderQualified(decs []string) string {
+	render := func(src string, imports bool) (string, string) {
+		var f *dst.File
+		var err error
+		if imports {
+			f, err = decorator.NewDecoratorWithImports(token.NewFileSet(), "example.com/p", goast.New()).Parse(src)
+		} else {
+			f, err = decorator.Parse(src)
+		}
+		if err != nil {
+			return "", "harness: " + err.Error()
+		}
+		elts := f.Decls[len(f.Decls)-1].(*dst.GenDecl).Specs[0].(*dst.ValueSpec).Values[0].(*dst.CompositeLit).Elts
+		for _, e := range []dst.Expr{elts[0], elts[len(elts)-1]} {
+			id, ok := e.(*dst.Ident)
+			if !ok || (imports && id.Path != "os") {
+				return "", "harness: the element is not a (collapsed) identifier"
+			}
+			id.Decs.End.Replace(decs...)
+		}
+		var buf bytes.Buffer
+		var perr error
+		if msg := guard(func() {
+			if imports {
+				perr = decorator.NewRestorerWithImports("example.com/p", guess.New()).Fprint(&buf, f)
+			} else {
+				perr = decorator.Fprint(&buf, f)
+			}
+		}); msg != "" || perr != nil {
+			return "", fmt.Sprintf("rendering %q fails: %s %v", decs, msg, perr)
+		}
+		return buf.String(), ""
+	}
+	q, msg := render("package p\n\nimport \"os\"\n\nvar v = []interface{}{\n\tos.Stdout,\n\tos.Stdin,\n\tos.Stderr,\n}\n", true)
+	if msg != "" {
+		return "Ident.End (qualified): " + msg
+	}
+	pl, msg := render("package p\n\nvar v = []interface{}{\n\tos_Stdout,\n\tos_Stdin,\n\tos_Stderr,\n}\n", false)
+	if msg != "" {
+		return "Ident.End: " + msg
+	}
+	if got, want := strings.Replace(q, "import \"os\"\n\n", "", 1), strings.ReplaceAll(pl, "os_", "os."); got != want {
+		return fmt.Sprintf("Ident.End of a qualified identifier: All() = %q is rendered as\n%s\non a plain identifier in the same place as\n%s", decs, got, want)
+	}
+	return ""
+}
+
 func c19Render(decs []string) string {
 	if msg := c19RenderAfterRaw(decs); msg != "" {
+		return msg
+	}
+	if msg := c19RenderQualified(decs); msg != "" {
 		return msg
 	}
 	for _, t := range c19Targets {
